@@ -25,6 +25,26 @@ CHECKS = {
             "A exhaustive; B every use site x values.", "CompletionItemKind open per documented customisation"),
     "C14": ("exploration", "6/C14", "runtime monitor: forced (union occurrence x alternative x shape) values through the real converter; WT at the occurrence; hook tap",
             "Exhaustive over occurrence x alternative for representative shapes.", "partialResult unions have no Python position"),
+    "C04": ("exploration", "6/C04", "structural invariant of the live module at a quiescent point: exhaustive two-way comparison of classes/attributes/annotations/validator behaviour with the metamodel",
+            "Exhaustive over all declarations; validators judged behaviourally by calling them on witnesses.", "trusted: documented Python type mapping (DESIGN 3.7); int at a decimal field not judged"),
+    "C05": ("translation_validation", "6/C05", "two real generator processes under the fs tap; AST-level (python) and rustfmt byte-level (rust) comparison with the committed files, both directions",
+            "Translation validation of the committed generated files against fresh generator output for the tree as it is.", "trusted: rustfmt 1.95 equals the build's formatter pass; docstring whitespace normalisation"),
+    "C07": ("exploration", "6/C07", "reader over fresh rust plugin output judged against the metamodel; thorough tier compiles the crate offline and lets real serde answer probes (field lists, round-trips, missing-field)",
+            "Exhaustive over all items of lib.rs; thorough adds ~1.9k real serde executions.", "trusted: reading of serde attributes (cross-checked by serde itself in thorough); Url/Decimal stubbed"),
+    "C08": ("exploration", "6/C08", "reader over fresh dotnet plugin output (655 files) judged against the metamodel",
+            "Exhaustive over generated .cs files at text level.", "no .NET toolchain offline: trusted base includes my reading of Newtonsoft attribute semantics"),
+    "C11": ("exploration", "6/C11", "runtime monitor: single-field mutations of generated valid values through the real converter; oracle preconditions (a)-(c)",
+            "Every eligible site of sampled values of every structure x four edits.", "any exception counts as rejection"),
+    "C15": ("exploration", "6/C15", "runtime monitor: fresh-key injection at protocol-object nodes, attrs-equality and re-serialisation compared with the base run",
+            "Sampled bases x one/several/all nodes.", "fresh = declared by no structure"),
+    "C16": ("exploration", "6/C16", "real generator processes under fs/uuid tap across hash seeds, run histories and stale directories; owned-file hash comparison; uuid4 taint scan",
+            "4 plugins x configurations x histories.", "files a plugin does not own are not judged"),
+    "C17": ("exploration", "6/C17", "all vectors of the real testdata plugin (writes captured in memory) judged by the independent strict validity oracle; True vectors through the real converter",
+            "Exhaustive over all 73,988 vectors and 164 message classes.", "envelope model DESIGN 3.4"),
+    "C18": ("fault_enumeration", "6/C18", "read-back/merge/equality monitors on the real loader + schema-violating single edits x 4 plugins as real processes under the fs tap and plugin-entry probe",
+            "Fault enumeration of schema-violating edits x plugins; lossless/equality by exhaustive node-pair comparison on several documents.", "schema violation judged against #/definitions/MetaModel"),
+    "C19": ("exploration", "6/C19", "creation histories compared on a fixed battery + fresh-process schedule trials with barrier, switch interval 1e-6 and seeded sys.monitoring LINE yield injection; distinct interleavings counted",
+            "All histories up to length k; hundreds of injected schedules; held on what was observed.", "yield at statement start manufactures no impossible interleaving"),
     "C20": ("exploration", "6/C20", "icontract postconditions on Position.__eq__/__gt__ + exhaustive boundary grid and random pairs against tuple order",
             "Grid exhaustive (1296 pairs) + random pairs; Range/Location structural equality; unrelated-object probes; reprs.", "tuple order is the reference"),
 }
